@@ -22,10 +22,14 @@
          (as coded); lenient = self-issued certificates do not count (RFC 5280 6.1.4 (l)).
      (b) the root edge's own path-length limit: strict = applies (as coded); lenient = "before the
          root" means the limit of the root itself is not consulted.
-     (c) a path whose final root edge has no issuer in the graph, or whose issuer is a node
-         already on the path: lenient = it is a path (the walk "stops at the first root edge", the
-         root's own issuer is irrelevant); strict = not required (the code reaches edges only
-         through the parent maps, which index edges by a known issuer not yet on the path).
+     (c) a path whose final root edge has an issuer that is a node already on the path: lenient =
+         it is a path (the walk "stops at the first root edge", the root's own issuer is
+         irrelevant); strict = not required (the code skips edges whose issuer node is on the path).
+   NOT open (coordinator's ruling, 2026-09-22): a path whose final root edge has NO issuer in the
+   graph is required - the walk stops AT the root edge and never needs the root's issuer.  The
+   real walk reaches edges only through the parent maps, which index edges by a known issuer, so
+   it misses these paths: known finding C11-root-edge-issuer-absent; such a missing path is
+   reported under its own clause "missing:root-edge-issuer-absent", any other under "missing-chain".
    MaxLen = 9 certificates is the coded limit (`maxIntermediateCount`, tested against the chain
    length before extending).                                                                 *)
 EXTENDS Graph
@@ -44,7 +48,7 @@ OkNext(p, e, lenient) ==
   /\ e.child \notin Childs(p)                                     \* no (subject, key) twice
   /\ (~e.root => e.ca)                                            \* intermediates are CAs
   /\ (e.pathlen >= 0 /\ ~(lenient /\ e.root)) => Between(p, lenient) <= e.pathlen
-  /\ (~lenient /\ e.root) => (e.issuer # NoNode /\ e.issuer \notin Childs(p))   \* reading (c)
+  /\ (~lenient /\ e.root) => (e.issuer = NoNode \/ e.issuer \notin Childs(p))   \* reading (c)
 
 RECURSIVE Ext(_, _, _)
 Ext(E, p, lenient) ==
@@ -88,8 +92,12 @@ WalkReasons2(E, start, chains, perm, req) ==
       rec(ch)   == [i \in 1..Len(ch) |-> CHOOSE e \in all : e.id = ch[i]]
       ret   == RangeOf(chains)
       extra == ret \ perm
+      missing == req \ ret
+      \* the missing path ends (after at least one step) in a root edge without issuer in the graph
+      dang(p) == Len(p) >= 2 /\ LET e == CHOOSE x \in all : x.id = p[Len(p)] IN e.root /\ e.issuer = NoNode
   IN (IF NoDup(chains) THEN {} ELSE {"duplicate-chain"})
-     \cup (IF req \subseteq ret THEN {} ELSE {"missing-chain"})
+     \cup (IF \E p \in missing : ~dang(p) THEN {"missing-chain"} ELSE {})
+     \cup (IF \E p \in missing : dang(p) THEN {"missing:root-edge-issuer-absent"} ELSE {})
      \cup UNION {IF known(ch) THEN {"extra:" \o w : w \in ChainReasons(E, start, rec(ch))} \cup
                                     (IF ChainReasons(E, start, rec(ch)) = {} THEN {"extra:unclassified"} ELSE {})
                  ELSE {"extra:unknown-certificate"} : ch \in extra}
@@ -126,24 +134,27 @@ WalkObsJudge(o) ==
                  req  == Required(E, s) IN
              [why  |-> WalkReasons2(E, s, o.chains, perm, req),
               open |-> Cardinality(perm \ RangeOf(o.chains)),
-              nreq |-> Cardinality(req), maxlen |-> IF req = {} THEN 0 ELSE MaxOfSet({Len(p) : p \in req})] : s \in SE}
+              nreq |-> Cardinality(req),
+              ndang |-> Cardinality({p \in req : Len(p) >= 2 /\ \E e \in E : e.id = p[Len(p)] /\ e.issuer = NoNode}),
+              maxlen |-> IF req = {} THEN 0 ELSE MaxOfSet({Len(p) : p \in req})] : s \in SE}
       base == (IF o.panic # "" THEN {"panic"} ELSE {}) \cup (IF o.closed THEN {} ELSE {"channel-not-closed"})
       good == {j \in js : j.why = {}}
       pick == IF good # {} THEN CHOOSE j \in good : TRUE ELSE CHOOSE j \in js : TRUE
-  IN IF SE = {} THEN [why |-> base \cup {"start-edge-not-in-graph"}, open |-> 0, nreq |-> 0, maxlen |-> 0]
-     ELSE [why |-> base \cup pick.why, open |-> pick.open, nreq |-> pick.nreq, maxlen |-> pick.maxlen]
+  IN IF SE = {} THEN [why |-> base \cup {"start-edge-not-in-graph"}, open |-> 0, nreq |-> 0, ndang |-> 0, maxlen |-> 0]
+     ELSE [why |-> base \cup pick.why, open |-> pick.open, nreq |-> pick.nreq, ndang |-> pick.ndang, maxlen |-> pick.maxlen]
 
 WalkObsReasons(o) == WalkObsJudge(o).why
 
 \* coverage tags computed from the input side (graph and start) only
 WalkCover(o, j) ==
   {w \in {"required-path", "two-required-paths", "no-path", "synthesised-start-with-path", "optional-path",
-          "path-of-max-length", "path-of-4"} :
+          "path-of-max-length", "path-of-4", "path-to-root-without-issuer"} :
      CASE w = "required-path"      -> j.nreq >= 1
        [] w = "two-required-paths" -> j.nreq >= 2
        [] w = "no-path"            -> j.nreq = 0
        [] w = "synthesised-start-with-path" -> ~o.start.ingraph /\ j.nreq >= 1
        [] w = "optional-path"      -> j.why = {} /\ j.open > 0
        [] w = "path-of-max-length" -> j.maxlen = MaxLen
-       [] w = "path-of-4"          -> j.maxlen >= 4}
+       [] w = "path-of-4"          -> j.maxlen >= 4
+       [] w = "path-to-root-without-issuer" -> j.ndang >= 1}
 =============================================================================
